@@ -4,7 +4,10 @@ from play_common import classify, nontrivial  # noqa: F401
 from common import Case
 
 TITLE = 'The playable-card set is exactly the follow-suit rule'
-REQUIRED = ['available_spec', 'available_subset', 'available_nonempty', 'available_follows', 'current_available_uses_first_card',
+LEAN_TARGETS = ['BridgeVerif.Props.C06', 'BridgeVerif.Translated.Play']
+AUDIT_PROPS = ['C06', 'Translated.Play']
+REQUIRED = ['Translated.Play.available_cards_translated', 'Translated.Play.current_available_cards_translated', 'Translated.Play.with_hands_available_translated', 'Translated.Play.observed_available_translated', 'Translated.Play.observed_available_dummy_translated',
+            'available_spec', 'available_subset', 'available_nonempty', 'available_follows', 'current_available_uses_first_card',
             'random_play_in_available']
 RULE = ('PlayingPhase.available_cards on random hands of every size 0..13 x every led card (52) and no led card; the '
         'state-dependent variants (current_available_cards_in_hand / _in_dummy_hand) at every state of full and observed '
